@@ -274,7 +274,7 @@ pub fn delta_line(uni: &AffUniverse, d: &TxDelta) -> String {
     };
     let gen = if d.tx.memo.starts_with("Automatic SfL ACB adjustment") { 1 } else { 0 };
     format!(
-        "impl delta {} {} {} {} {} {} {} {}",
+        "impl delta {} {} {} {} {} {} {} {} {}",
         uni.tok(&d.tx.affiliate),
         act,
         status_toks(&d.pre_status),
@@ -282,7 +282,8 @@ pub fn delta_line(uni: &AffUniverse, d: &TxDelta) -> String {
         opt_dec(d.capital_gain),
         sfl,
         amt,
-        gen
+        gen,
+        d.tx.read_index
     )
 }
 
